@@ -72,6 +72,11 @@ fn call(w: &World, ep: &str, net: Network) -> Result<(), Refusal> {
 }
 
 impl Oracle for C14 {
+    fn settle(&self, w: &mut World) {
+        // an answered fee request fills caches; asked in every state as part of the step, so
+        // that the endpoint sweep below finds a state it does not change
+        let _ = w.fee_percentiles();
+    }
     type Mon = Mon;
     fn prop(&self) -> &'static str {
         "C14"
@@ -264,7 +269,35 @@ pub fn run(tier: &str) -> i32 {
             json!({"threshold": theta, "max_blocks": n, "difficulties": diffs, "announced_chain_lengths": lens, "api_access": true, "disable_api_if_not_fully_synced": true}),
         );
     }
-    rep.rule = "TREE histories with announced-header events (chains of 1-4 headers on any live block; the first header is that of the block the factory would deliver next, so headers are overtaken by arrivals, left on discarded forks, or reached by the stable height) x the 4 flag combinations; in every state the 7 data endpoints x 3 requested networks and the 3 exempt endpoints are called".into();
+    // headers that arrive the way they do in production: in get_successors replies through the
+    // heartbeat, including the first page of a paginated block, under rejects, upgrades and
+    // interleaved heartbeats (schedule explorer of C13 with the sync flag on)
+    for (theta, p, dev) in if quick { vec![(2u32, 1usize, 2usize)] } else { vec![(2, 1, 4), (2, 2, 3), (1, 1, 3)] } {
+        let m = crate::sched::SchedModel {
+            net: Network::Regtest,
+            theta,
+            pool: crate::sched::Pool::tall(Network::Regtest, p, 6),
+            max_deviations: dev,
+            max_depth: 100,
+            hb_budget: None,
+            prop: "C14",
+            liveness: false,
+            upgrade_transparency: false,
+            syncing_toggles: false,
+            sync_gate: true,
+        };
+        let e = explore(&m, &Limits::new(3, if quick { 300 } else { 6000 }));
+        rep.absorb(
+            &format!("SCHED+gate theta={} follow_ups={} deviations<={}", theta, p, dev),
+            e,
+            json!({"threshold": theta, "follow_up_pages": p, "max_deviations": dev,
+                   "pool": "G-T1-...-T6, T2 paginated, one block and at most three announced headers per reply",
+                   "oracle": "get_balance refuses iff the highest header announced in a processed reply (block not yet in the tree) is more than 2 above the best height"}),
+        );
+    }
+    rep.floor("gate_closed_states", 20);
+    rep.floor("gate_open_states_with_pending_headers", 20);
+    rep.rule = "TREE histories with announced-header events (chains of 1-4 headers on any live block; the first header is that of the block the factory would deliver next, so headers are overtaken by arrivals, left on discarded forks, or reached by the stable height) x the 4 flag combinations; in every state the 7 data endpoints x 3 requested networks and the 3 exempt endpoints are called; plus schedules of the fetch protocol (headers arriving in complete and paginated replies, rejects, upgrades, interleaved heartbeats) with the gate judged in every state".into();
     rep.bounds = json!({"tier": tier});
     rep.assume("headers of discarded forks may or may not still count (C20 allows dropping them up to the moment the stable height reaches theirs): such states are 'either'");
     rep.assume("the metrics endpoint cannot complete natively (ic0.time); only 'never refused by a guard' is checked for it");
